@@ -48,7 +48,7 @@ Fam == cfg.fam
 Futures == cfg.kind \in {"fut_fallible", "fut"}
 Fallible == cfg.kind \in {"fut_fallible", "fallible", "nonfut_fallible"}
 HasErrCb == cfg.kind \in {"fut_fallible", "fallible"}
-Metrics == IF Has("instr") THEN cfg.instr \in {7, 103} ELSE TRUE
+Metrics == IF Has("instr") THEN cfg.instr \in {7, 103, 11, 107} ELSE TRUE      \* every instrument set with the COUNTERS bit
 TimeoutOn == Has("timeout") /\ cfg.timeout /\ Futures
 NItems == IF Fam = "exec" THEN Len(cfg.items) ELSE 0
 KindOf(i) == cfg.items[i + 1]
@@ -103,6 +103,9 @@ EvBadX ==
     ELSE IF Ev.k = "xerr" /\ On("InvErrCallbackExactlyOnce") /\ (st[Ev.a] # "err" \/ Ev.a \in Range(errs)) THEN "InvErrCallbackExactlyOnce"
     ELSE IF Ev.k = "xclose" /\ On("InvCloseCallbackOnce") /\ Ev.a \in Range(closes) THEN "InvCloseCallbackOnce"
     ELSE IF Ev.k = "xclose" /\ On("InvCloseCallbackAfterLastItem") /\ (\E i \in ItemsOf(Ev.a) : st[i] = "running") THEN "InvCloseCallbackAfterLastItem"
+    \* (a failed item is fully processed only once its error callback has run: the close callback comes after that, and no error callback after it)
+    ELSE IF Ev.k = "xclose" /\ On("InvCloseCallbackAfterLastItem") /\ HasErrCb /\ (\E i \in ItemsOf(Ev.a) : st[i] = "err" /\ i \notin Range(errs)) THEN "InvCloseCallbackAfterLastItem"
+    ELSE IF Ev.k = "xerr" /\ On("InvCloseCallbackAfterLastItem") /\ ExOf(Ev.a) \in Range(closes) THEN "InvCloseCallbackAfterLastItem"
     ELSE IF Ev.k = "xclose" /\ On("InvAllItemsProcessed") /\ Fam = "exec" /\ (\E i \in 0..NItems-1 : ~Done(i)) THEN "InvAllItemsProcessed"
     ELSE IF Ev.k = "xclose" /\ On("InvOutcomeMatches") /\ Fam = "exec" /\ (\E i \in 0..NItems-1 : Done(i) /\ st[i] # Exp(i)) THEN "InvOutcomeMatches"
     ELSE IF Ev.k = "xclose" /\ On("InvErrCallbackExactlyOnce") /\ Fam = "exec" /\ HasErrCb /\ (\E i \in 0..NItems-1 : st[i] = "err" /\ Count(errs, i) # 1) THEN "InvErrCallbackExactlyOnce"
